@@ -22,7 +22,7 @@ from checks import validgen as vg
 from checks import validcomp as vc
 from checks.validcomp import COMP, NO_STATE, PRESENT, MULTI, OPER
 
-LEAN_TARGETS = ["LyModel.Props.C07"]
+LEAN_TARGETS = ["LyModel.Props.C07", "LyModel.Props.C07Valdiff"]
 AUDIT = "Audit/C07.lean"
 GENERATED = ["ValidConsts", "Consts"]
 HARNESS = "api_norm"
@@ -48,8 +48,11 @@ def classify(component, what, case):
     if law == "accepts" and case.get("errors", "").startswith("Other:") and "userord-default-recreated" in feat:
         # F194: the re-created user-ordered defaults sit in a non-presence container nested in the replaced default container
         return "F194" if "np-container-given-as-new-instance" in feat and "userord-default-recreated-nested" in feat else "F178"
-    if law in ("valdiff-eq", "valdiff-apply") and ("np-container-given-as-new-instance" in feat or "default-np-container-removed" in feat):
+    if law in ("valdiff-eq", "valdiff-apply") and "np-container-given-as-new-instance" in feat:
         return "F179"
+    if law in ("valdiff-eq", "valdiff-apply") and "default-np-container-removed" in feat:
+        # part (b) of F179: the leftover default non-presence container of a case goes unrecorded (repair: fixes/F400.diff)
+        return "F400"
     if law == "implicit" and "missing-defaults-of-a-case-whose-data-sits-in-a-nested-choice" in feat:
         return "F180"
     if law in ("idempotent", "idempotent-tree", "implicit", "valdiff-eq") and "default-np-container-left-in-non-default-case" in feat:
@@ -91,6 +94,7 @@ def run(cx):
     when_family(cx)
     case_npcont_family(cx)
     case_defaults_family(cx)
+    valdiff_shapes_family(cx)
 
 
 # ---- law-only family: defaults guarded by `when` (on the node, on its choice, on its case, on a non-presence container) ------------
@@ -372,6 +376,55 @@ def case_defaults_family(cx):
                 steps += ["D:%d/%d" % (top.sid, e.sid), "V"]
             hists.append(Hist(s, steps, [], [[] for _ in range(14)], 0))
     base = 950000
+    for k, h in enumerate(hists):
+        h.k = base + k
+    process(cx, schemas, hists)
+
+
+def valdiff_shapes_family(cx):
+    """The witnesses of the `_fails` theorems of Props/C07Valdiff.lean (F177, F179 a, F194, F400 = F179 b), the same schemas and
+    histories, replayed on libyang through the ordinary pipeline (model + laws), each with small variations (values, a second
+    default, the position of the default-less leaf): every excluded shape of `valdiff_exact_partial` is seen to fail in the C."""
+    rng = cx.sub_rng("vdshapes")
+    S, T = tg.SNode, tg.Ty
+    st = T("string")
+    schemas, hists = [], []
+    NEWINST = "np-container-given-as-new-instance"
+    for i in range(cx.n(4, 12)):
+        v = rng.choice([b"x", b"yy", b"1"])
+        # F177: container c { config false; list l { leaf a { default }; leaf b; } }
+        a, b = S("leaf", "a", ty=st, dflt=rng.choice([b"1", b"dd"]), config=False), S("leaf", "b", ty=st, config=False)
+        l = S("list", "l", kids=[a, b] if i % 2 == 0 else [b, a], config=False, userord=True)
+        c = S("container", "c", kids=[l], config=False)
+        s = vg.XSchema("vsa%02d" % i, [c])
+        schemas.append(s)
+        hists.append(Hist(s, ["C:-:%s" % tg.tok([tg.DN(c, None, [tg.DN(l, None, [tg.DN(b, v)])])]), "V"], [], [[] for _ in range(4)], 0))
+        # F179 a: container c { container d { leaf f { default }; leaf g { default }; } }: a second, explicit d next to the default one
+        f, g = S("leaf", "f", ty=st, dflt=b"t"), S("leaf", "g", ty=st, dflt=b"x")
+        d = S("container", "d", kids=[f, g] + ([S("leaf", "h", ty=st, dflt=b"h")] if i % 3 == 0 else []))
+        c = S("container", "c", kids=[d])
+        s = vg.XSchema("vsb%02d" % i, [c])
+        schemas.append(s)
+        hists.append(Hist(s, ["C:-:%s" % tg.tok([tg.DN(c, None, [])]), "V", "C:%d:%s" % (c.sid, tg.tok([tg.DN(d, None, [tg.DN(f, rng.choice([b"t", v]))])])), "V"],
+                          [], [[], [NEWINST], [], []], 0))
+        # F194: container c2 { leaf f16; container c17 { leaf-list ll19 { ordered-by user; default a; default x; } } }: a second, explicit c2
+        f16 = S("leaf", "f16", ty=st)
+        ll = S("leaflist", "ll19", ty=st, userord=True, dflts=[b"a b", b"x"] if i % 2 else [b"a", b"x"])
+        c17 = S("container", "c17", kids=[ll])
+        c2 = S("container", "c2", kids=[f16, c17])
+        s = vg.XSchema("vsc%02d" % i, [c2])
+        schemas.append(s)
+        hists.append(Hist(s, ["C:-:%s" % tg.tok([tg.DN(c2, None, [])]), "V", "C:-:%s" % tg.tok([tg.DN(c2, None, [tg.DN(f16, v)])]), "V"], [], [[], [NEWINST], [], []], 0))
+        # F400 (F179 b): container top { presence; choice ch { case a { container nc { leaf e; leaf d { default }; } } case b { leaf w; } } }
+        e, dd, w = S("leaf", "e", ty=st), S("leaf", "d", ty=st, dflt=b"x"), S("leaf", "w", ty=st)
+        nc = S("container", "nc", kids=[e, dd] if i % 2 == 0 else [dd, e])
+        ch = S("choice", "ch", kids=[S("case", "a", kids=[nc]), S("case", "b", kids=[w])])
+        top = S("container", "top", presence=True, kids=[ch])
+        s = vg.XSchema("vsd%02d" % i, [top])
+        schemas.append(s)
+        hists.append(Hist(s, ["C:-:%s" % tg.tok([tg.DN(top, None, [tg.DN(nc, None, [tg.DN(e, v)])])]), "V", "D:%d/%d/%d" % (top.sid, nc.sid, e.sid), "V", "V"],
+                          [], [[] for _ in range(5)], 0))
+    base = 980000
     for k, h in enumerate(hists):
         h.k = base + k
     process(cx, schemas, hists)
